@@ -704,7 +704,9 @@ def lemma_query(ta, tb, name_max, tta=None, ttb=None):
     def describe(model):
         n = model.eval(total, model_completion=True).as_long()
         blob = bytes(model.eval(f(i), model_completion=True).as_long() & 255 for i in range(min(n, 600)))
-        return {'blob': blob.hex(), 'end_a': str(model.eval(enda)), 'end_b': str(model.eval(endb)), 'types': [ta, tb]}
+        lens = [model.eval(l.pos[e.name.decl().name()][1], model_completion=True).as_long() for l, e in ((la, a), (lb, b))]
+        return {'blob': blob.hex(), 'end_a': str(model.eval(enda)), 'end_b': str(model.eval(endb)), 'types': [ta, tb],
+                'followers': [tta, ttb], 'name_lengths': lens}
     return asserts, describe
 
 
@@ -729,10 +731,43 @@ def run_lemma(tier, Q, k, n):
                     Q.sample({'query': name, 'result': r})
 
 
+_REALISE = [0]
+
+
 def realise_lemma_model(ta, tb, desc):
-    """try to turn the blob of a lemma counterexample into two different real trees with equal hash: parse the blob
-    greedily in both ways with the real entry layout is not possible in general -> only report what reproduces"""
-    return False
+    """turn a lemma counterexample into two different REAL trees with equal hash: a direct sequence-theory query for the
+    shapes (entry, follower) of the model with names up to 8 bytes (10 s; at most two attempts per query group -- the
+    model's own long names are out of reach of the sequence solver); only a pair that the unmodified code hashes equally
+    in real directories counts"""
+    global NAME_MAX
+    _REALISE[0] += 1
+    if _REALISE[0] > 2:
+        return False
+    tta, ttb = desc['followers']
+    sa = (ta,) + ((tta,) if tta else ())
+    sb = (tb,) + ((ttb,) if ttb else ())
+    old = NAME_MAX
+    NAME_MAX = 8
+    try:
+        del zsym._REG[:]
+        xa, xb = Sym('a'), Sym('b')
+        ea, eb = build(sa, xa), build(sb, xb)
+        t1, ha = record(ea, xa)
+        t2, hb = record(eb, xb)
+    finally:
+        NAME_MAX = old
+    s = z3.Solver()
+    s.set('timeout', 10000)
+    s.add(xa.cons + xb.cons + sha_axioms(ha + hb) + [t1 == t2, z3.Not(entries_equal(ea, eb))])
+    if str(s.check()) != 'sat':
+        return False
+    ca, cb = concretize(ea, s.model()), concretize(eb, s.model())
+    try:
+        da, db = real_hash(ca), real_hash(cb)
+    except (OSError, ValueError):
+        return False
+    desc['tree_a'], desc['tree_b'], desc['hash'] = repr(ca), repr(cb), da.hex()
+    return da == db and norm(ca) != norm(cb)
 
 
 BOUNDS = ('direct queries: <= 2 (thorough 3) entries per directory and side, 6 entry types, one nesting level (thorough two), names 1..%d bytes, '
